@@ -108,7 +108,14 @@ func init() {
 		if panics(func() { d = modbus.VerifDecodeBools(uint16(q), b[:len(b):len(b)]) }) {
 			return "panic"
 		}
-		return bits(d)
+		out := bits(d)
+		// the result belongs to the caller: overwrite and grow it; later results must not be affected
+		for i := range d {
+			d[i] = !d[i]
+		}
+		d = append(d, true, true, true, true, true, true, true, true)
+		_ = d
+		return out
 	}
 }
 
